@@ -598,8 +598,7 @@ class Engine:
                 for tag, i1, i2, j1, j2 in difflib.SequenceMatcher(None, rec, cur, autojunk=False).get_opcodes():
                     if tag == "replace" and i2 - i1 == j2 - j1:
                         for a, b in zip(rec[i1:i2], cur[j1:j2]):
-                            if a not in cur:
-                                m[a] = b
+                            m[a] = b      # consulted only where the recorded name is not bound in the current scope
             cache[q] = m
         return cache[q]
 
